@@ -139,11 +139,24 @@ pub fn with_gone_listener(mut adf: Adf) -> Adf {
 }
 
 pub fn sem_case_o(prop: &str, text: &str, orc: &Oracle, sorting: usize, labels: &[String], out: &mut Found, st: &mut Stats) {
-    sem_case_inner(prop, text, orc, sorting, labels, out, st);
+    sem_case_inner(prop, text, orc, sorting, labels, out, st, false);
     VARMAP.with(|vm| *vm.borrow_mut() = None);
+    if sorting != 0 && orc.n <= 8 {
+        // the same once more, but the parser has already served an instantiation (native and biodivine) BEFORE it was
+        // sorted: every object below is a second instantiation from a re-sorted parser
+        let mut out2: Found = vec![];
+        let cases = st.cases;
+        sem_case_inner(prop, text, orc, sorting, labels, &mut out2, st, true);
+        st.cases = cases;
+        VARMAP.with(|vm| *vm.borrow_mut() = None);
+        for (k, m) in out2 {
+            out.push((format!("resorted-parser:{}", k), format!("{} (the parser had served an instantiation before it was sorted)", m)));
+        }
+    }
 }
 
-fn sem_case_inner(prop: &str, text: &str, orc: &Oracle, sorting: usize, labels: &[String], out: &mut Found, st: &mut Stats) {
+#[allow(clippy::too_many_arguments)]
+fn sem_case_inner(prop: &str, text: &str, orc: &Oracle, sorting: usize, labels: &[String], out: &mut Found, st: &mut Stats, instantiate_before_sorting: bool) {
     let n = orc.n;
     st.cases += 1;
     let parser = AdfParser::default();
@@ -151,6 +164,12 @@ fn sem_case_inner(prop: &str, text: &str, orc: &Oracle, sorting: usize, labels: 
     if parsed != Ok(true) {
         out.push(("parse".into(), format!("generated well-formed input was not accepted: {:?}", parsed)));
         return;
+    }
+    if instantiate_before_sorting {
+        let _ = guard(|| {
+            let _a = Adf::from_parser(&parser);
+            let _b = BdAdf::from_parser(&parser);
+        });
     }
     match sorting {
         1 => {
